@@ -341,6 +341,47 @@ def run_history(ctx, rng, kind, ops, label):
         ctx.report(f'history-{S.result}:{kind}', f'history did not complete: {S.error!r}', {'target': kind, 'label': label})
 
 
+def check_burst(ctx, rng):
+    """Hundreds of Interests handed over within ONE turn of the event loop (a full receive buffer): each reaches its handler exactly
+    once - also the 129th, the 257th, the 1025th."""
+    for kind in ('v2', 'v1'):
+        for n_burst, mode in ((300, 'await-in-a-row'), (1100, 'await-in-a-row'), (300, 'task-per-packet')):
+            log = []
+            res = {}
+
+            async def main(S):
+                T = Target(kind, log)
+                await T.start()
+                pre = (C(b'burst'),)
+                T.attach(list(pre), 1)
+                T.attach([C(b'burst'), C(b'deep')], 2)
+                wires = [bytes(make_interest(list(pre) + ([C(b'deep')] if j % 7 == 3 else []) + [rc.comp(8, b'%05d' % j)], InterestParam(nonce=j + 1, lifetime=4000)))
+                         for j in range(n_burst)]
+                if mode == 'await-in-a-row':
+                    for wv in wires:
+                        await T.face.callback(5, wv)          # (receiving an unsigned Interest does not suspend)
+                else:
+                    ts = [T.face.deliver_task(wv) for wv in wires]
+                    await asyncio.gather(*ts)
+                for _ in range(20):
+                    await asyncio.sleep(0.01)
+                res['n'] = n_burst
+                await T.stop()
+            S = vtime.run(main)
+            w = {'target': kind, 'burst': n_burst, 'mode': mode}
+            ctx.case(('burst', kind, n_burst, mode), nontrivial=True)
+            ctx.event('interest-burst-in-one-loop-turn')
+            if S.result != 'ok':
+                ctx.report(f'burst-scenario-{S.result}:{kind}', f'{S.error!r}', w)
+                continue
+            got = {}
+            for hid, name, _, _ in log:
+                got[name] = got.get(name, []) + [hid]
+            wrong = [(rc.name_to_uri(list(k), canonical=True), v) for k, v in got.items() if v != [2 if k[1:2] == (C(b'deep'),) else 1]]
+            if len(got) != n_burst or wrong:
+                ctx.report(f'burst-not-every-interest-delivered-once:{kind}', f'{len(got)} of {n_burst} Interests of one burst reached a handler; wrong deliveries: {wrong[:3]}', w)
+
+
 def check_reply(ctx, rng):
     """v2 reply closure: deadline and truthful return."""
     res = {'viol': []}
@@ -586,6 +627,18 @@ def run(ctx):
             ops += [('interest', n) for n in (PREFIXES[2], PREFIXES[3], PREFIXES[1], INT_NAMES[7], PREFIXES[7])]
             ops += [('attach', PREFIXES[2]), ('interest', PREFIXES[2]), ('detach', PREFIXES[2]), ('interest', PREFIXES[2]), ('interest', PREFIXES[3])]
             run_history(ctx, rng, 'v2', ops, 'unregister-keeps-handler-template')
+    # several prefixes of the same (greatest) depth; one of them is detached, the others keep receiving
+    D1, D2, D3 = (C(b'a'), C(b'b'), C(b'c'), C(b'g')), (C(b'a'), C(b'b'), C(b'c'), C(b'h')), (C(b'e'), C(b'f'), C(b'g'), C(b'h'))
+    for kind in kinds:
+        for gone in (D1, D2, D3):
+            for shallow in ((), (1,), (1, 3)):
+                ops = [('attach', PREFIXES[j]) for j in shallow] + [('attach', D1), ('attach', D2), ('attach', D3)]
+                rng.shuffle(ops)
+                ops += [('detach', gone)] + [('interest', d + (C(b'x'),)) for d in (D1, D2, D3)] + [('interest', d) for d in (D1, D2, D3)]
+                ops += [('attach', gone)] + [('interest', d + (C(b'y'),)) for d in (D1, D2, D3)]
+                run_history(ctx, rng, kind, ops, 'same-depth-template')
+    if ctx.shard == 0:
+        check_burst(ctx, rng)
     check_reply(ctx, rng)
     for k in ('attach', 'detach', 'duplicate-attach', 'interest-hit', 'interest-miss', 'reply-sent', 'reply-late', 'attach-with-delivery-options',
               'reconnect-with-handlers-attached', 'register-without-handler-on-free-prefix', 'duplicate-route-declaration',
